@@ -66,8 +66,8 @@ func c14TCPJobs(tier string) []string {
 		}
 	}
 	// wrap points relative to ISS+1 (first data byte): 0, inside segment 1, at the boundary
-	// of segments 1/2, inside segment 2, beyond everything sent
-	offs := []uint32{1, 5, 21, 30, 70}
+	// of segments 1/2, inside segment 2, at the boundary of segments 2/3, beyond everything sent
+	offs := []uint32{1, 5, 21, 30, 41, 70}
 	if tier == "thorough" {
 		offs = []uint32{1, 2, 5, 20, 21, 22, 30, 41, 50, 70}
 	}
